@@ -10,10 +10,11 @@ CONSTANTS
   Callers = {"c1", "c2"}
   Outcomes = {"ok", "fail", "cancel"}
   SplitAcquire = TRUE
+  SplitTransition = TRUE
   Defects = {"StaleHalfOpen"}
   MaxNow = 7
   MaxCount = 3
 CONSTRAINT Bound
 VIEW View
 INVARIANTS TypeOK SemInv RingRefines
-PROPERTIES RecordRule OpenRule ProbeRule ClosedRule Machine
+PROPERTIES MidRule RecordRule OpenRule ProbeRule ClosedRule Machine
